@@ -448,9 +448,11 @@ def two_session_family(ctx, res):
 # ------------------------------------------------------------------------------------------------
 # one session, SEVERAL transfers under way (each on a data connection of its own), one ABOR: every one of them stops
 # ------------------------------------------------------------------------------------------------
-async def _several_transfers_case(loop, verbs, salt, relogin=False):
+async def _several_transfers_case(loop, verbs, salt, relogin=False, ipv6=False, parked=False):
+    import socket
+
     big = content(4096)
-    wd = W.World(loop, S.USERS_ANON, server_kwargs={"block_size": BS})
+    wd = W.World(loop, S.USERS_ANON, server_kwargs={"block_size": BS}, family=socket.AF_INET6 if ipv6 else socket.AF_INET)
     await wd.start()
     out = {}
     try:
@@ -477,6 +479,12 @@ async def _several_transfers_case(loop, verbs, salt, relogin=False):
             await loop.settle()
             datas.append((verb, dr, dw, sp))
         out["marks"] = [int(x) for x, _ in c.replies[n0:] if x == "150"]
+        if parked:
+            # one more data connection, made for the NEXT transfer and not used yet
+            c.data = None
+            await W.run_line(wd, c, b"EPSV")
+            await W.data_connect(wd, c)
+            c.keep_data = True
         if relogin:
             # the same peer logs in again while its transfers run: they are still its transfers
             c.send_raw(b"USER bob\r\n")
@@ -528,7 +536,8 @@ async def _several_transfers_case(loop, verbs, salt, relogin=False):
 
 def _several_job(args):
     try:
-        return simnet.run(_several_transfers_case, args[0], args[1], bool(args[2]) if len(args) > 2 else False, task_salt=args[1], wall_limit=60)
+        return simnet.run(_several_transfers_case, args[0], args[1], bool(args[2]) if len(args) > 2 else False, bool(args[3]) if len(args) > 3 else False,
+                          bool(args[4]) if len(args) > 4 else False, task_salt=args[1], wall_limit=60)
     except BaseException as e:  # noqa
         return "HARNESS-ERROR %s: %s" % (type(e).__name__, e)
 
@@ -547,13 +556,14 @@ def _several_judge(inp, o):
 
 
 def several_transfers_family(ctx, res):
-    for verbs, relogin in ((["RETR", "RETR"], False), (["RETR", "STOR"], False), (["STOR", "RETR"], False), (["STOR", "STOR"], False), (["RETR", "RETR", "RETR"], False),
-                           (["RETR"], True), (["STOR"], True), (["RETR", "STOR"], True)):
+    for verbs, relogin, ipv6, parked in ((["RETR", "RETR"], False, False, False), (["RETR", "STOR"], False, False, False), (["STOR", "RETR"], False, False, False), (["STOR", "STOR"], False, False, False),
+                                         (["RETR", "RETR", "RETR"], False, False, False), (["RETR"], True, False, False), (["STOR"], True, False, False), (["RETR", "STOR"], True, False, False),
+                                         (["RETR"], False, False, True), (["RETR"], False, True, True), (["STOR"], False, True, True), (["RETR", "STOR"], False, True, False)):
         for salt in ((0,) if not ctx.thorough() else (0, 1, 5)):
             res.cases += 1
             res.count("several_transfers_one_abor")
-            inp = {"kind": "several-transfers", "transfers": verbs, "task_salt": salt, "second_login_before_abor": relogin}
-            o = _several_job((verbs, salt, relogin))
+            inp = {"kind": "several-transfers", "transfers": verbs, "task_salt": salt, "second_login_before_abor": relogin, "over_ipv6": ipv6, "a_data_connection_parked_for_the_next_transfer": parked}
+            o = _several_job((verbs, salt, relogin, ipv6, parked))
             if isinstance(o, str):
                 res.disagreements.append({"correspondence": "C14 several-transfers harness", "input": inp, "impl": o})
                 continue
@@ -783,7 +793,7 @@ def replay(ctx, doc):
         print(o)
         return isinstance(o, str) or o["a_replies"] != [226] or o["b_replies"] != [150, 226] or not o["b_ok"]
     if inp.get("kind") == "several-transfers":
-        o = _several_job((inp["transfers"], inp.get("task_salt", 0), inp.get("second_login_before_abor", False)))
+        o = _several_job((inp["transfers"], inp.get("task_salt", 0), inp.get("second_login_before_abor", False), inp.get("over_ipv6", False), inp.get("a_data_connection_parked_for_the_next_transfer", False)))
         print(o)
         f = _several_judge(inp, o)
         print(f)
@@ -807,3 +817,9 @@ def probe_known(ctx, finding):
     spec, r = _one(finding["replay"])
     f = oracle(spec, finding["replay"]["abor_at_iteration"], r)
     return f is not None and f["signature"] == finding["signature"]
+
+
+# somebody else's classes: a transfer command of the application's own (props/thirdparty.py)
+from props import thirdparty as _thirdparty  # noqa: E402
+
+correspondence, search, replay = _thirdparty.attach(PID, correspondence, search, replay)
